@@ -284,6 +284,14 @@ def run(ctx):
         except Exception:
             continue
         record(data, xf.nonce_offset, 12 if ctx.quick else 40, 5000)
+    # canary: a copy of a recorded history with one reported position off by one must be rejected by the trace specification
+    import copy as _copy
+
+    canary = _copy.deepcopy(next(t for t in traces if any(e["op"] == "read" for e in t["ev"])))
+    ce = next(e for e in canary["ev"] if e["op"] == "read")
+    ce["tell"] += 1
+    n_real = len(traces)
+    traces.append(canary)
     tr = ctx.outdir / "hist.ndjson"
     core.write_ndjson(tr, traces)
     outf = ctx.outdir / "hist.report.json"
@@ -296,6 +304,10 @@ def run(ctx):
     reached = core.read_json(outf)
     if isinstance(reached, dict):
         reached = [reached[str(i + 1)] for i in range(len(traces))]
+    if reached[n_real] == len(traces[n_real]["ev"]) + 1:
+        raise core.MachineryError("XorFileTrace accepted a history whose reported position was corrupted")
+    ctx.notes.setdefault("canaries_rejected", []).append("XorFileTrace")
+    traces = traces[:n_real]
     for i, tr_ in enumerate(traces):
         want = len(tr_["ev"]) + 1
         if reached[i] != want:
